@@ -151,14 +151,14 @@ def run_sequence(dic, cfg, seq):
             smode = op[1]
             if kind == "SO":
                 if reuse2 is None:
-                    # an empty list of the same tokenizer (what the deprecation note of
-                    # MorphemeList.empty recommends); it carries the tokenizer's projection
-                    reuse2 = tok.tokenize("")
+                    # a list of the same tokenizer (it carries the tokenizer's projection), holding
+                    # the morphemes of another text
+                    reuse2 = tok.tokenize(TEXTS[1])  # NOT empty: a split into it must replace its contents
                 sub = m.split(MODES[smode], out=reuse2)
             else:
                 sub = m.split(MODES[smode])
             exp_parent = ORACLE["analyses"][t][m_used][idx]
-            exp = exp_parent["split_" + smode]
+            exp = exp_parent["split_" + smode] if smode != "C" else []
             if not exp:
                 exp = [exp_parent]
             check_list(seq, sub, t, exp, cfg, "%r[%d].split(%s%s)" % (t, idx, smode, ", out=L2" if kind == "SO" else ""))
@@ -210,6 +210,9 @@ def alphabet():
         ops.append(("S", m, 0))
         ops.append(("S", m, 1))
         ops.append(("SO", m, 0))
+    # splitting in mode C never splits: the result is the morpheme itself, also into a reused list
+    ops.append(("S", "C", 0))
+    ops.append(("SO", "C", 1))
     for i in range(len(QUERIES)):
         ops.append(("LK", i))
         ops.append(("LKO", i))
